@@ -287,12 +287,13 @@ func GCMDecrypt(K, IV, C, A []byte) (P, _T []byte) {
 	Y := make([]byte, BlockSize*(n+1))
 	Y = incr(n+1, Y0)
 
-	P = make([]byte, BlockSize*n)
-	for i := 1; i <= n; i++ {
+	P = make([]byte, len(C))
+	for i := 1; i <= n-1; i++ {
 		c.Encrypt(Enc, Y[i*BlockSize:i*BlockSize+BlockSize])
 		copy(P[(i-1)*BlockSize:(i-1)*BlockSize+BlockSize], addition(C[(i-1)*BlockSize:(i-1)*BlockSize+BlockSize], Enc))
 	}
 
+	// the last block may be partial (or empty): use only the leading u bits of the key stream block
 	c.Encrypt(Enc, Y[n*BlockSize:n*BlockSize+BlockSize])
 	out := MSB(u, Enc)
 	copy(P[(n-1)*BlockSize:], addition(C[(n-1)*BlockSize:], out))
